@@ -147,6 +147,13 @@ func (o *oracleC09) monitor() func(task, op int, site uint32) string {
 				return fmt.Sprintf("package-level state of the library was modified during op #%d (detected before %s)", op, siteStr(site))
 			}
 		}
+		if a := decimal.VerifAtomicHeldDigest(); a != m.abase {
+			if verifrt.LocksHeld() > 0 || verifrt.LockEpoch != m.epoch || verifrt.JustAtomic() {
+				m.abase = a
+			} else {
+				return fmt.Sprintf("data held in a package-level sync/atomic value was changed in place by an ordinary statement during op #%d (detected before %s)", op, siteStr(site))
+			}
+		}
 		m.epoch = verifrt.LockEpoch
 		return ""
 	}
